@@ -149,7 +149,8 @@ def build(flavour, universes, jobs=16, quiet=False, extra_flags=(), tag=""):
     names = hashlib.sha256(",".join(sorted(u["name"] for u in universes)).encode()).hexdigest()[:10]
     binary = os.path.join(bdir, "svsim-" + names)
     if todo or not os.path.exists(binary):
-        link = [cxx] + [f for f in flags if f.startswith("-fsanitize") or f.startswith("-fno-sanitize")] \
+        link = [cxx] + [f for f in flags if f.startswith("-fsanitize") or f.startswith("-fno-sanitize")
+                        or f.startswith("-fprofile") or f.startswith("-fcoverage")] \
             + objs + ["-o", binary + ".tmp"]
         rc, text = _run(link, os.path.join(bdir, "link.log"))
         if rc != 0:
